@@ -85,3 +85,56 @@ package benchunit
 //@     invariant 0 <= idx() <= len(sigfigs) && fallbackFrom(val, factor, 0) == fallbackFrom(val, factor, idx())
 //@     invariant pickFrom(min, factors, 0) == fallbackFrom(val, factor, 0)
 //@     decreases len(sigfigs) - idx()
+
+// ---------------------------------------------------------------------------
+// The unit tokeniser and the unit class (C10, shared with C04)
+
+// Separators between unit tokens; a token is a maximal run of other characters.
+//@ pure func unitSep(r rune) bool = r == '*' || r == '/' || r == '-' || unicode.IsSpace(r)
+// sepEnd(q, i): where the separators starting at byte i end (len(q) if nothing follows).
+//@ rec func sepEnd(q string, i int) int = (i < 0 || i >= len(q)) ? len(q) :
+//@     (unitSep(srune(q, i)) ? (srunelen(q, i) >= 1 ? sepEnd(q, i + srunelen(q, i)) : len(q)) : i)
+// sepDenom(q, i, d): whether what follows those separators is in the denominator
+// (the last '*' or '/' among them decides; d if there is none).
+//@ rec func sepDenom(q string, i int, d bool) bool = (i < 0 || i >= len(q)) ? d :
+//@     (unitSep(srune(q, i)) ? (srunelen(q, i) >= 1 ? sepDenom(q, i + srunelen(q, i), srune(q, i) == '*' ? false : (srune(q, i) == '/' ? true : d)) : d) : d)
+// tokEnd(q, i): where the token starting at byte i ends.
+//@ rec func tokEnd(q string, i int) int = (i < 0 || i >= len(q)) ? len(q) :
+//@     (unitSep(srune(q, i)) ? i : (srunelen(q, i) >= 1 ? tokEnd(q, i + srunelen(q, i)) : len(q)))
+
+// next: skips separators, then takes the token up to the next separator; offsets
+// are byte offsets into the original unit.
+//@ func (p *parser) next() (ok bool)
+//@   props C10
+//@   requires p != nil && p.rpos >= 0 && p.rpos + len(p.rest) <= 281474976710656
+//@   modifies p
+//@   ensures ok <==> sepEnd(old(p.rest), 0) < len(old(p.rest))
+//@   ensures !ok ==> p.rest == ""
+//@   ensures ok ==> p.pos == old(p.rpos) + sepEnd(old(p.rest), 0) && p.denom == sepDenom(old(p.rest), 0, old(p.denom))
+//@   ensures ok ==> p.tok == old(p.rest)[sepEnd(old(p.rest), 0):][:tokEnd(old(p.rest)[sepEnd(old(p.rest), 0):], 0)] && p.rest == old(p.rest)[sepEnd(old(p.rest), 0):][tokEnd(old(p.rest)[sepEnd(old(p.rest), 0):], 0):]
+//@   ensures ok ==> len(p.tok) >= 1 && p.rpos == p.pos + len(p.tok) && p.rpos + len(p.rest) == old(p.rpos) + old(len(p.rest))
+//@   ensures ok ==> 0 <= sepEnd(old(p.rest), 0) && p.pos >= old(p.rpos) && len(p.rest) < old(len(p.rest))
+//@   loop 1:
+//@     invariant 0 <= idx() <= len(old(p.rest)) && unchanged(p) && p.rest == old(p.rest) && p.rpos == old(p.rpos) && p.tok == old(p.tok) && p.pos == old(p.pos)
+//@     invariant sepEnd(old(p.rest), 0) == sepEnd(old(p.rest), idx()) && sepDenom(old(p.rest), 0, old(p.denom)) == sepDenom(old(p.rest), idx(), p.denom)
+//@     decreases len(old(p.rest)) - idx()
+//@   loop 2:
+//@     invariant 0 <= idx() <= len(p.rest) && unchanged(p) && end == len(p.rest) && p.rest == old(p.rest)[sepEnd(old(p.rest), 0):] && sepEnd(old(p.rest), 0) < len(old(p.rest))
+//@     invariant p.rpos == old(p.rpos) + sepEnd(old(p.rest), 0) && p.denom == sepDenom(old(p.rest), 0, old(p.denom)) && !unitSep(srune(p.rest, 0))
+//@     invariant tokEnd(p.rest, 0) == tokEnd(p.rest, idx())
+//@     decreases len(p.rest) - idx()
+
+// classFrom(q, d): the class of the rest q of a unit, d telling whether it starts in
+// the denominator: binary as soon as a numerator token is B, MB or bytes.
+//@ pure func binaryTok(t string) bool = t == "B" || t == "MB" || t == "bytes"
+//@ rec func classFrom(q string, d bool) Class = sepEnd(q, 0) >= len(q) ? 0 :
+//@     ((binaryTok(q[sepEnd(q, 0):][:tokEnd(q[sepEnd(q, 0):], 0)]) && !sepDenom(q, 0, d)) ? 1 :
+//@      classFrom(q[sepEnd(q, 0):][tokEnd(q[sepEnd(q, 0):], 0):], sepDenom(q, 0, d)))
+
+//@ func ClassOf(unit string) (c Class)
+//@   props C10
+//@   opt allocates
+//@   ensures c == classFrom(unit, false)
+//@   loop 1:
+//@     invariant p != nil && fresh(p) && unchanged() && p.rpos >= 0 && p.rpos + len(p.rest) <= len(unit) && classFrom(unit, false) == classFrom(p.rest, p.denom)
+//@     decreases len(p.rest)
